@@ -679,6 +679,7 @@ def check_odeint(chk, project, tdir, neq):
         # naunet_ode.cpp is loaded too so that the real Observer constructor runs
         M = Machine([ll, ll_ode], st_)
         seen = []
+        fixed_seen = []
         dem = H.demangle(sorted(M.funcs))
         sname = next(n for n, d in dem.items() if d.startswith("Naunet::Solve("))
         data = {}
@@ -713,12 +714,19 @@ def check_odeint(chk, project, tdir, neq):
                 st.store(o, 8 * i, R(st.load(o, 8 * i)) + R(tend) - R(tstart))
             return st, z3.Int("nsteps")
 
+        def integrate_fixed(M_, st, a):
+            # Boost's fixed-output-time drivers (integrate_const, integrate_n_steps, integrate_times) call the observer
+            # at the output times only, not after every internal step: an observer that counts steps counts outputs
+            fixed_seen.append(st.pathcond())
+            return integrate(M_, st, a)
+
         pats = [
             (r"ublas::vector<double>::vector\(unsigned long\)", vec_ctor),
             (r"ublas::vector<double>::operator\[\]", vec_idx),
             (r"ublas::vector<double>::~vector", lambda M_, st, a: (st, None)),
             (r"integrate_adaptive<", integrate),
-            (r"make_controlled<", lambda M_, st, a: (st, None)),
+            (r"integrate_(const|n_steps|times)<", integrate_fixed),
+            (r"make_controlled<|make_dense_output<", lambda M_, st, a: (st, None)),
             (r"^Observer::~Observer|^Fex::Fex|^Fex::~Fex|^Jac::Jac|^Jac::~Jac", lambda M_, st, a: (st, None)),
             (r"^std::terminate", lambda M_, st, a: (st, None)),
         ]
@@ -798,6 +806,9 @@ def check_odeint(chk, project, tdir, neq):
         except Inconclusive as e:
             chk.unknown(f"{tdir}:Solve:{scenario}", e)
             continue
+        if fixed_seen and scenario == "returns":
+            chk.violation(f"{tdir}:Solve:observer-protocol", "odeint Solve drives the integration with a fixed-output-time driver (integrate_const / integrate_n_steps / integrate_times): Boost calls the observer at the output times only, so the step-budget observer never sees the internal steps and exceeding the budget is not reported",
+                          {"target": tdir, "replay_note": "call read from the compiled Solve; observer protocol as documented for boost::numeric::odeint::integrate_const"})
         if scenario == "two-calls":
             s = z3.Solver()
             for which, lo, hi, mx in (("first", 0, n1, mx1), ("second", n1, len(seen), mx2)):
